@@ -514,6 +514,13 @@ def validateCurrencyOverflow (t : Txn1) : VM Unit :=
     reject "transaction outputs exceed inputs"
   else pure ()
 
+/-- the siafund-pool half of `validateCurrencyOverflow` (fix "contract tax overflows the siafund pool"):
+the taxes of the transaction's new contracts, added one by one to the running pool, stay below 2^128 -/
+def validateTaxPool (ms : Mid) (t : Txn1) : VM Unit :=
+  if (sumChecked (ms.pool :: t.fcs.map (fun f => fileContractTax ms.base f.2.payout))).isNone then
+    reject "transaction contract tax overflows the siafund pool"
+  else pure ()
+
 def validateMinimumValues (t : Txn1) : VM Unit :=
   if t.scOuts.any (·.2.value = 0) ∨ t.fcs.any (·.2.payout = 0) ∨ t.sfOuts.any (fun (_, v, _) => v = 0) ∨ t.fees.any (· = 0) then
     reject "transaction creates a zero-valued output"
@@ -611,6 +618,7 @@ def validateSignatures (t : Txn1) : VM Unit :=
 def validateTransaction (ms : Mid) (t : Txn1) (parentBlockId : Id) (maxWeight : Nat) : VM Unit := do
   if ms.base.child ≥ ms.base.P.v2Require then reject "v1 transactions are not allowed after v2 hardfork is complete"
   validateCurrencyOverflow t
+  validateTaxPool ms t
   if t.weight > maxWeight then reject "transaction exceeds maximum block weight"
   validateMinimumValues t
   validateSiacoins ms t
@@ -679,6 +687,16 @@ def validateV2CurrencyOverflow (t : Txn2) : VM Unit :=
   if parts.any (·.isNone) then reject "transaction outputs exceed inputs"
   else if (sumChecked (parts.filterMap id).flatten).isNone ∨ t.sfOuts.any (fun (_, v, _) => v > 10000) then
     reject "transaction outputs exceed inputs"
+  else pure ()
+
+/-- the siafund-pool half of `validateV2CurrencyOverflow`: taxes of new contracts and of renewals' new contracts
+(each `renter + host < 2^128` has been established by `validateV2CurrencyOverflow` at this point) -/
+def validateV2TaxPool (ms : Mid) (t : Txn2) : VM Unit :=
+  let taxes : List Cur := t.fcs.map (fun (_, fc, _) => (fc.renter.value + fc.host.value) / 25) ++
+    t.ress.filterMap (fun r => match r.res with
+      | .renewal rn => some ((rn.newContract.renter.value + rn.newContract.host.value) / 25)
+      | _ => none)
+  if (sumChecked (ms.pool :: taxes)).isNone then reject "transaction contract tax overflows the siafund pool"
   else pure ()
 
 def Ledger.hasSc (L : Ledger) (e : ScElem) : Bool := L.sc.contains e
@@ -850,6 +868,7 @@ def validateFoundationUpdate (ms : Mid) (t : Txn2) : VM Unit :=
 def validateV2Transaction (ms : Mid) (t : Txn2) (maxWeight : Nat) : VM Unit := do
   if ms.base.child < ms.base.P.v2Allow then reject "v2 transactions are not allowed until v2 hardfork begins"
   validateV2CurrencyOverflow t
+  validateV2TaxPool ms t
   if t.weight = 0 then reject "transactions cannot be empty"
   if t.weight > maxWeight then reject "transaction exceeds maximum block weight"
   validateV2Siacoins ms t
